@@ -332,7 +332,7 @@ var Events = []lime.NotificationEvent{lime.NotificationEventAccepted, lime.Notif
 	lime.NotificationEventConsumed, lime.NotificationEventFailed}
 var States = []lime.SessionState{lime.SessionStateNew, lime.SessionStateNegotiating, lime.SessionStateAuthenticating, lime.SessionStateEstablished,
 	lime.SessionStateFinishing, lime.SessionStateFinished, lime.SessionStateFailed}
-var URIs = []string{"/p", "/p?q=1", "lime://n@d/p", "/a%20b"}
+var URIs = []string{"/p", "/p?q=1", "lime://n@d/p", "/a%20b", "/p#frag", "/p/q?a=1&b=%20#f", "lime://n@d/p?x=1#f"}
 
 // Reasons: index 0 is "absent".
 var Reasons = []*lime.Reason{nil, {Code: 42, Description: Esc}, {Description: "d"}, {Code: 1}, {}}
